@@ -235,15 +235,20 @@ def _run_case(ctx, case, rng):
                   got=sh, detail=bad[:3], nontrivial=bool(F))
     elif kind == "invalid":
         args, kwargs = case["args"], case["kwargs"]
+        via_cwna = case.get("via") == "copy_with_new_atts"
         for base in ("ab", obs.build([["ab", {"fg": 31}]])):
             try:
-                r = fmtstr(base, *args, **dict(kwargs))
-                ctx.judge(False, case, mech="C14:invalid-accepted", expected="ValueError", got=repr(r))
+                if via_cwna:
+                    r = (fmtstr(base) if isinstance(base, str) else base).copy_with_new_atts(**dict(kwargs))
+                else:
+                    r = fmtstr(base, *args, **dict(kwargs))
+                ctx.judge(False, case, mech="C14:copy_with_new_atts-unvalidated" if via_cwna else "C14:invalid-accepted",
+                          expected="ValueError", got=repr(r))
             except ValueError:
                 ctx.judge(True, case, ("C14", "invalid", repr(args), repr(kwargs), isinstance(base, str)))
             except Exception as ex:  # noqa
-                ctx.judge(False, case, mech="C14:invalid-other-exception", expected="ValueError",
-                          got=repr(ex))
+                ctx.judge(False, case, mech="C14:copy_with_new_atts-unvalidated" if via_cwna else "C14:invalid-other-exception",
+                          expected="ValueError", got=repr(ex))
     elif kind == "casevariant":
         args, kwargs, atts = case["args"], case["kwargs"], case["atts"]
         want = obs.spec_cells([["ab", atts]])
@@ -267,20 +272,25 @@ def _run_case(ctx, case, rng):
         for bname in ("plain", "red-bold"):
             spec = [["ab", {} if bname == "plain" else {"fg": 31, "bold": True}]]
             base = "ab" if bname == "plain" else obs.build(spec)
+            via_cwna = case.get("via") == "copy_with_new_atts"
             try:
-                r = fmtstr(base, *args, **dict(kwargs))
+                if via_cwna:
+                    r = (fmtstr(base) if isinstance(base, str) else base).copy_with_new_atts(**dict(kwargs))
+                else:
+                    r = fmtstr(base, *args, **dict(kwargs))
             except ValueError:
-                ctx.judge(True, case, ("C14", "lenient", repr(args), repr(kwargs), bname, "rejected"))
+                ctx.judge(True, case, ("C14", "lenient", repr(args), repr(kwargs), bname, "rejected", via_cwna))
                 ctx.count("unusual_value_rejected_with_ValueError")
                 continue
             except Exception as ex:  # noqa
-                ctx.judge(False, case, mech="C14:invalid-other-exception", expected="ValueError or a formatted result",
-                          got=repr(ex))
+                ctx.judge(False, case, mech="C14:copy_with_new_atts-unvalidated" if via_cwna else "C14:invalid-other-exception",
+                          expected="ValueError or a formatted result", got=repr(ex))
                 continue
             want = apply_algebra(obs.spec_cells(spec), meaning)
             problems, got = obs.result_problems(r, want)
-            ctx.judge(not problems, case, ("C14", "lenient", repr(args), repr(kwargs), bname, "accepted"),
-                      "C14:unusual-value-accepted-with-wrong-effect", obs.show(want),
+            ctx.judge(not problems, case, ("C14", "lenient", repr(args), repr(kwargs), bname, "accepted", via_cwna),
+                      "C14:copy_with_new_atts-unvalidated" if via_cwna else "C14:unusual-value-accepted-with-wrong-effect",
+                      obs.show(want),
                       obs.show(got) if got is not None else None, problems)
             ctx.count("unusual_value_accepted")
     else:
@@ -320,6 +330,15 @@ def run(ctx):
             run_case(ctx, {"kind": "casevariant", "args": a, "kwargs": kw, "atts": atts})
         for a, kw, meaning in LENIENT:
             run_case(ctx, {"kind": "lenient", "args": a, "kwargs": kw, "meaning": meaning})
+        # the same through copy_with_new_atts (keyword specifications only): unknown names and bad
+        # values raise ValueError; colour names are either refused or mean what they mean in fmtstr
+        for a, kw in INVALID:
+            if not a and "style" not in kw:
+                run_case(ctx, {"kind": "invalid", "args": a, "kwargs": kw, "via": "copy_with_new_atts"})
+                ctx.count("invalid_catalogue_via_copy_with_new_atts")
+        for kw, meaning in ([{"fg": "red"}, {"fg": "red"}], [{"bg": "blue", "bold": True}, {"bg": "blue", "bold": True}],
+                            [{"fg": 31.0}, {"fg": "red"}], [{"bold": 0}, {"bold": False}]):
+            run_case(ctx, {"kind": "lenient", "args": [], "kwargs": kw, "meaning": meaning, "via": "copy_with_new_atts"})
     for _ in range(ctx.share(3000 if ctx.quick else 400000)):
         a = obs.rand_atts(rng)
         runs = [["".join(rng.choice("abc") for _ in range(rng.randint(0, 3))), dict(a)]
